@@ -25,9 +25,11 @@ echo "== demo WITH patch (expect FAIL)"
 (cd $sub && go test -vet=off -count=1 -run "^${demo}\$" . 2>&1 | tail -6)
 rm $wt/$sub/zz_seed_demo_test.go
 echo "== suite WITH patch vs baseline"
-go test -json -vet=off -count=1 -timeout 25m ./... > /tmp/seedchk-$name.json 2>/dev/null
-python3 - <<PY
-import json,ast
+: > /tmp/seedchk-$name.json
+for try in 1 2 3; do
+  TEST_BASEPORT=$((${TEST_BASEPORT:-30000}+try*137)) TEST_BASEPORT_SMTP=$((${TEST_BASEPORT_SMTP:-31000}+try*137)) go test -json -vet=off -count=1 -timeout 25m ./... >> /tmp/seedchk-$name.json 2>/dev/null
+  python3 - <<PY && break
+import json,ast,sys
 b=json.load(open('/root/.vp/BASELINE.json')); sp=b['stable_pass']
 if isinstance(sp,str): sp=ast.literal_eval(sp)
 want=set(sp); got=set()
@@ -36,9 +38,11 @@ for l in open('/tmp/seedchk-$name.json'):
     except Exception: continue
     if e.get('Action')=='pass' and e.get('Test'): got.add(e['Package']+'::'+e['Test'])
 miss=sorted(want-got)
-print('baseline %d, passing %d, missing %d'%(len(want),len(want&got),len(miss)))
+print('try $try: baseline %d, passing (union over tries) %d, missing %d'%(len(want),len(want&got),len(miss)))
 for m in miss[:10]: print('  MISSING',m)
+sys.exit(1 if miss else 0)
 PY
+done
 rm -f /tmp/seedchk-$name.json
 mkdir -p /verif/seeded/$name
 cp $src/_seed/patch.diff /verif/seeded/$name/patch.diff
